@@ -43,6 +43,10 @@ func runC17(c *an.Ctx) {
 	r17q(c)
 	r17r(c)
 	fieldWriters(c, "R17s", "basicTaskBase.pendingFinalTaskStateCh is made once, at launch", "executor/executable", "basicTaskBase", "pendingFinalTaskStateCh", map[string]bool{"(*executor/executable.basicTaskBase).doLaunch": true}, "the reaper of a run reads this channel after Wait(); replaced by the next start, the stopped run finds no pending state and is reported as failed instead of killed", 1)
+	// round 9
+	r17t(c)
+	r17u(c)
+	r17v(c)
 }
 
 const exPkg = "executor/executable"
